@@ -51,7 +51,7 @@ class StringEncoder:
         assert s.shape[1] == self.n
         assert torch.min(s) >= 0, "Cannot encode negative values."
         max_value = torch.max(s)
-        assert max_value < 2**self.w, f"Width {self.w} is not sufficient to encode value {max_value}."
+        assert int(max_value) < 2**self.w, f"Width {self.w} is not sufficient to encode value {max_value}."
 
         encoded = torch.zeros((s.shape[0], self.encoded_length), dtype=torch.int64, device=s.device)
         w, cl = self.w, CODEWORD_LENGTH
